@@ -2,10 +2,12 @@ package spec
 
 import (
 	"go/ast"
+	"go/token"
 	"go/types"
 	"strings"
 
 	"lndlint/internal/an"
+	"lndlint/internal/flow"
 )
 
 func init() {
@@ -99,20 +101,45 @@ func runC09(r *an.Run) {
 			guardedAll(o, h, policyAcc, an.Cmp(an.Param(2), an.GE, an.FieldPath(an.Param(0), "MinHTLCOut"), "amt >= policy.MinHTLCOut"))
 			// !(MaxHTLC != 0 && amt > MaxHTLC): accept unreachable when both
 			// atoms are true
-			var a1, a2 string
-			for _, v := range h.Graph().V {
-				c := h.AtomCanon(v)
-				if c == "($p0.MaxHTLC != 0)" {
-					a1 = c
+			// the two atoms are recognised by what they compare, in either
+			// operand order and under either polarity (De Morgan'd, split or
+			// merged conditions produce the complementary atoms)
+			maxHTLC := an.FieldPath(an.Param(0), "MaxHTLC")
+			nonZero, above := false, false
+			decide := func(f *an.Func, v *flow.Vertex) (bool, bool) {
+				if v.Kind != flow.KCond {
+					return false, false
 				}
-				if c == "($p2 > $p0.MaxHTLC)" {
-					a2 = c
+				be, ok := ast.Unparen(v.Node.(ast.Expr)).(*ast.BinaryExpr)
+				if !ok {
+					return false, false
 				}
+				rel, ok := c09RelOf(be.Op)
+				if !ok {
+					return false, false
+				}
+				switch {
+				case an.Match(f, maxHTLC, be.X) && an.Match(f, an.IntConst(0), be.Y):
+					// assumed: MaxHTLC != 0, i.e. (unsigned) MaxHTLC > 0
+					nonZero = true
+					return rel&an.GT != 0, true
+				case an.Match(f, an.IntConst(0), be.X) && an.Match(f, maxHTLC, be.Y):
+					nonZero = true
+					return rel&an.LT != 0, true
+				case an.Match(f, an.Param(2), be.X) && an.Match(f, maxHTLC, be.Y):
+					// assumed: amt > MaxHTLC
+					above = true
+					return rel&an.GT != 0, true
+				case an.Match(f, maxHTLC, be.X) && an.Match(f, an.Param(2), be.Y):
+					above = true
+					return rel&an.LT != 0, true
+				}
+				return false, false
 			}
-			if a1 == "" || a2 == "" {
+			reach := h.ReachUnder(decide)
+			if !nonZero || !above {
 				o.FailAt(h.ID+"#max-htlc-atoms", h.Where(h.Body.Pos()), "the max_htlc test `policy.MaxHTLC != 0 && amt > policy.MaxHTLC` is gone")
 			} else if len(policyAcc) == 1 {
-				reach := h.ReachUnder(an.ByCanon(map[string]bool{a1: true, a2: true}))
 				o.Site("max_htlc exceeded -> accept reachable: %v", reach[policyAcc[0].V])
 				if reach[policyAcc[0].V] {
 					o.FailAt(h.ID+"#max-htlc", policyAcc[0].Where(), "an amount above a non-zero max_htlc can be accepted")
@@ -320,4 +347,23 @@ func isLogArg(f *an.Func, v *an.FlowVertex, e ast.Expr) bool {
 		return true
 	})
 	return found
+}
+
+// c09RelOf maps a comparison operator to the orderings under which it holds.
+func c09RelOf(op token.Token) (an.Rel, bool) {
+	switch op {
+	case token.LSS:
+		return an.LT, true
+	case token.LEQ:
+		return an.LE, true
+	case token.GTR:
+		return an.GT, true
+	case token.GEQ:
+		return an.GE, true
+	case token.EQL:
+		return an.EQ, true
+	case token.NEQ:
+		return an.NE, true
+	}
+	return 0, false
 }
